@@ -77,6 +77,9 @@ fn cfg(dir: &Path, cap: u64) -> CacheConfig {
 fn judge_get(t: &TruthKey, a: usize, b: usize, r: &Result<Option<chunk_cache::CacheRange>, chunk_cache::error::ChunkCacheError>) -> Result<bool, Fail> {
     match r {
         Ok(Some(c)) => {
+            if a >= b || b > t.n() {
+                return fail("cache-hit-wrong-data", format!("hit for [{a},{b}), a range that was never put (the key has {} chunks)", t.n()));
+            }
             let (o, d) = t.slice(a, b);
             if c.data.as_ref() != d {
                 return fail("cache-hit-wrong-data", format!("hit for [{a},{b}) returned {} bytes that differ from what was put ({} bytes)", c.data.len(), d.len()));
@@ -403,7 +406,9 @@ fn parse_item_name(name: &str) -> Option<(u32, u32, u64, u32)> {
     ))
 }
 
-const DAMAGE_KINDS: [&str; 17] = [
+const DAMAGE_KINDS: [&str; 19] = [
+    "rename-range-end",
+    "burst-all-small-reopen",
     "burst-header",
     "burst-data",
     "truncate",
@@ -518,6 +523,40 @@ fn apply_damage(rng: &mut Rng, root: &Path, kind: &str, keys: &[TruthKey]) -> St
                     let _ = std::fs::rename(&f, f.parent().unwrap().join(nn));
                     return format!("rename-range-shift [{a},{b}) -> [{},{})", a + d, b + d);
                 }
+            }
+            kind.into()
+        },
+        "rename-range-end" => {
+            // same start, length and checksum; the end of the chunk range in the name moved by 1..2 either way
+            if let Some(f) = pick_file(rng) {
+                let name = f.file_name().unwrap().to_string_lossy().to_string();
+                if let Some((a, b, len, crc)) = parse_item_name(&name) {
+                    let d = rng.range(1, 2) as u32;
+                    let nb = if rng.chance(1, 2) || b - a <= d { b + d } else { b - d };
+                    let nn = item_name(a, nb, len, crc);
+                    let _ = std::fs::rename(&f, f.parent().unwrap().join(nn));
+                    return format!("rename-range-end [{a},{b}) -> [{a},{nb})");
+                }
+            }
+            kind.into()
+        },
+        "burst-all-small-reopen" => {
+            // one burst of <= 32 bits in the data part of every cache file (the caller re-opens with a small capacity,
+            // so that some of the damaged files stay on disk without being tracked)
+            for (f, _) in &files {
+                let Ok(mut b) = std::fs::read(f) else { continue };
+                if b.len() < 8 { continue; }
+                let hl = (u32::from_le_bytes(b[0..4].try_into().unwrap()) as usize + 1) * 4;
+                if hl >= b.len() { continue; }
+                let start_bit = rng.range((hl * 8) as u64, (b.len() * 8 - 1) as u64);
+                let width = rng.range(1, 32).min((b.len() * 8) as u64 - start_bit);
+                for i in 0..width {
+                    if i == 0 || i == width - 1 || rng.chance(1, 2) {
+                        let bit = start_bit + i;
+                        b[(bit / 8) as usize] ^= 1 << (bit % 8);
+                    }
+                }
+                let _ = std::fs::write(f, &b);
             }
             kind.into()
         },
@@ -650,6 +689,9 @@ pub fn run_fault(args: &Args, rep: &mut Report) {
             if i > 0 && kind.starts_with("burst") {
                 break;
             }
+            if i > 0 && kind == "rename-range-end" && rng.chance(1, 2) {
+                break;
+            }
             applied.push(apply_damage(&mut rng, dir.path(), kind, &keys));
         }
         let w = |what: &str| {
@@ -659,8 +701,18 @@ pub fn run_fault(args: &Args, rep: &mut Report) {
             w["what"] = json!(what);
             w
         };
+        // what the directory now claims to hold (ranges in the file names), per key directory
+        let mut named: Vec<(PathBuf, u32, u32)> = Vec::new();
+        let mut disk_total = 0u64;
+        for (f, l) in walk_cache_files(dir.path()) {
+            disk_total += l;
+            if let Some((a, b, _, _)) = parse_item_name(&f.file_name().unwrap().to_string_lossy()) {
+                named.push((f.parent().unwrap().to_path_buf(), a, b));
+            }
+        }
+        let reopen_cap = if kind == "burst-all-small-reopen" { rng.range(1, (disk_total / 2).max(1)) } else { cap };
         let res = xvcommon::catch(|| -> Result<(u64, u64), Fail> {
-            let cache = match DiskCache::initialize(&cfg(dir.path(), cap)) {
+            let cache = match DiskCache::initialize(&cfg(dir.path(), reopen_cap)) {
                 Ok(c) => c,
                 Err(_) => return Ok((0, 0)), // an error on re-open is allowed
             };
@@ -681,6 +733,20 @@ pub fn run_fault(args: &Args, rep: &mut Report) {
                     let a = rng.usize_below(t.n());
                     qs.push((a, rng.urange(a + 1, t.n())));
                 }
+                // exactly the ranges named by the files now in this key's directory, and their ends
+                let (p2, kd) = key_dir_name(&t.key);
+                let kdir = dir.path().join(p2).join(kd);
+                for (d, a, b) in &named {
+                    if *d == kdir && a < b && (*b as u64) < (1 << 20) {
+                        let (a, b) = (*a as usize, *b as usize);
+                        qs.push((a, b));
+                        qs.push((b - 1, b));
+                        if b - a >= 2 {
+                            qs.push((a, b - 1));
+                            qs.push((b - 2, b));
+                        }
+                    }
+                }
                 for (a, b) in qs {
                     let r = cache.get(&t.key, &ChunkRange { start: a as u32, end: b as u32 });
                     if judge_get(t, a, b, &r)? {
@@ -691,7 +757,8 @@ pub fn run_fault(args: &Args, rep: &mut Report) {
                 }
             }
             // puts after damage must work and read back
-            for (ki, a, b) in put_ranges.iter().take(3) {
+            let n_reput = if kind == "burst-all-small-reopen" { put_ranges.len() } else { 3 };
+            for (ki, a, b) in put_ranges.iter().take(n_reput) {
                 let t = &keys[*ki];
                 let (o, d) = t.slice(*a, *b);
                 let _ = cache.put(&t.key, &ChunkRange { start: *a as u32, end: *b as u32 }, &o, d);
